@@ -471,14 +471,18 @@ class Normaliser:
                     if nm in touched:
                         del last_def[nm]
                 continue
-            if isinstance(s, ast.Assign) and len(s.targets) == 1 and isinstance(s.targets[0], ast.Name):
-                nm = s.targets[0].id
+            name_targets = [t for t in s.targets if isinstance(t, ast.Name)] if isinstance(s, ast.Assign) else []
+            if isinstance(s, ast.Assign) and len(name_targets) == 1 and all(isinstance(t, (ast.Name, ast.Subscript, ast.Attribute)) for t in s.targets):
+                # `x = e` or `obj[k] = x = e`: one local is defined here
+                nm = name_targets[0].id
                 if nm in last_def:
                     j = last_def[nm]
                     self.k += 1
                     new = f"{nm}__v{self.k}"
                     # rename the earlier definition and every use after it up to and including this statement's right-hand side
-                    out[j].targets[0].id = new
+                    for t in out[j].targets:
+                        if isinstance(t, ast.Name) and t.id == nm:
+                            t.id = new
                     for k2 in range(j + 1, i + 1):
                         st = out[k2]
                         for n in ast.walk(st.value if k2 == i else st):
